@@ -531,6 +531,19 @@ def reg_label(case) -> str:
     return f"in={spec_label(case['tin'])};out={spec_label(case['tout'])}"
 
 
+def third_party_training_failure(e: BaseException) -> bool:
+    """Oracle boundary: the statement is about fitted models.
+
+    A training run that dies *inside the third-party library* (OpenTURNS' LARS selecting an empty basis, its kriging
+    optimiser failing on a degenerate data set) yields no model: counted as an outcome, not a violation.  An exception
+    raised by gemseo's own code is still a violation ("raises").
+    """
+    import traceback
+
+    frames = traceback.extract_tb(e.__traceback__)
+    return "/gemseo/" not in frames[-1].filename and any(f.name == "learn" for f in frames)
+
+
 def check_reg(case, res) -> None:
     """Run every oracle on one ``reg`` case; fills res = {"violations": [(invariant, message)], "outcome", "sharp", "obs"}."""
     from gemseo.disciplines.surrogate import SurrogateDiscipline
@@ -548,13 +561,7 @@ def check_reg(case, res) -> None:
             return
         raise
     except Exception as e:  # noqa: BLE001
-        # Oracle boundary: the statement is about fitted models.  A training run that dies *inside the third-party
-        # library* (OpenTURNS' LARS selecting an empty basis on a degenerate data set) yields no model: counted as an
-        # outcome, not a violation.  An exception raised by gemseo's own code is still a violation ("raises").
-        import traceback
-
-        frames = traceback.extract_tb(e.__traceback__)
-        if "/gemseo/" not in frames[-1].filename and any(f.name == "learn" for f in frames):
+        if third_party_training_failure(e):
             res["outcome"] = f"training-failed-in-third-party({type(e).__name__})"
             res["obs"]["training_error"] = str(e)[:200]
             return
@@ -969,6 +976,11 @@ def check_byname(case, res) -> None:
     except ValueError as e:
         if reg["cls"] == "PCERegressor" and "does not support input transformers" in str(e) and not kw:
             res["outcome"] = "byname:rejected(PCE with the default input transformer)"  # documented ValueError
+            return
+        raise
+    except Exception as e:  # noqa: BLE001
+        if third_party_training_failure(e):
+            res["outcome"] = f"byname:training-failed-in-third-party({type(e).__name__})"
             return
         raise
     if case["transformer"] == "explicit":
